@@ -310,6 +310,9 @@ fn big_script<const N: usize>(cap: usize, out: &mut StepOut) {
     let ws = harness::waker(W_S);
     for round in 0..2 {
         for i in 0..cap {
+            if i % 512 == 0 {
+                crate::core::heartbeat();
+            }
             let r = lib(|| chan.try_send(Big([i as u8; N])).is_ok());
             let (na, nf) = harness::take_alloc_counts();
             if na + nf > 0 {
@@ -332,6 +335,9 @@ fn big_script<const N: usize>(cap: usize, out: &mut StepOut) {
             return;
         }
         for i in 0..cap + 1 {
+            if i % 512 == 0 {
+                crate::core::heartbeat();
+            }
             let r = lib(|| chan.try_receive().map(|b| b.0[0]).ok());
             let (na, nf) = harness::take_alloc_counts();
             if na + nf > 0 {
